@@ -5,3 +5,17 @@ Lemma ulower_ascii s : is_ascii s = true -> ulower s = lower s.
 Proof. intro H. unfold ulower. rewrite H. reflexivity. Qed.
 Lemma uupper_ascii s : is_ascii s = true -> uupper s = upper s.
 Proof. intro H. unfold uupper. rewrite H. reflexivity. Qed.
+(* the final-sigma rule on concrete words (std's documentation examples among them): 'ΟΔΟΣ' -> 'οδος'; a single 'Σ' -> 'σ'; 'ΑΣΑ' -> 'ασα';
+   an apostrophe or a combining mark after the sigma is skipped ('ΑΣ'' -> 'ας''), one before it too ('Α'Σ' -> 'α'ς'); a digit before it is
+   not cased ('1Σ' -> '1σ'); 'ΣΣ' -> 'σς' *)
+Example final_sigma_examples :
+  ulower [206;159;206;148;206;159;206;163] = [206;191;206;180;206;191;207;130] /\
+  ulower [206;163] = [207;131] /\
+  ulower [206;145;206;163;206;145] = [206;177;207;131;206;177] /\
+  ulower [206;145;206;163;39] = [206;177;207;130;39] /\
+  ulower [206;145;39;206;163] = [206;177;39;207;130] /\
+  ulower [49;206;163] = [49;207;131] /\
+  ulower [206;163;206;163] = [207;131;207;130] /\
+  ulower [206;145;206;163;204;129;32;206;145] = [206;177;207;130;204;129;32;206;177] /\
+  uupper [207;130] = [206;163].
+Proof. vm_compute. repeat split. Qed.
